@@ -44,6 +44,7 @@ QW == QHi - QLo + 1
 NQ == QW * QW
 QPt(i) == <<QLo + ((i - 1) % QW), QLo + ((i - 1) \div QW)>>
 
+SumOver(S, f(_)) == LET RECURSIVE su(_) su(T) == IF T = {} THEN 0 ELSE LET x == CHOOSE y \in T : TRUE IN f(x) + su(T \ {x}) IN su(S)
 Poly(c) == Ctr(c[1], [i \in 1..(Len(c) - 1) |-> Ln(c[i + 1])], TRUE)
 
 \* ---- a deterministic family of contours that are simple by construction and hit two special mechanisms ------------
@@ -78,6 +79,18 @@ SpecialCtrs ==
     \cup {Cusp(4, <<1, 4>>, r, m) : r \in {2, 3}, m \in {-1, 1}}
     \cup {Cusp(k, o, r, m) : k \in {7, 8}, o \in {<<1, 4>>, <<2, 4>>}, r \in {1, 2}, m \in {-1, 1}}
 
+\* three-contour Filling scenarios (N >= 8): a big square C, a square B inside it and a triangle A whose FIRST vertex lies on
+\* B's boundary (on an edge or at a corner, A outside or inside B), every orientation of the three and every list order.
+Fill3Paths ==
+    LET rv(c, fl) == IF fl THEN <<c[1]>> \o [i \in 1..(Len(c) - 1) |-> c[Len(c) + 1 - i]] ELSE c
+        cc == << <<0, 0>>, <<8, 0>>, <<8, 8>>, <<0, 8>> >>
+        bb == << <<2, 2>>, <<5, 2>>, <<5, 5>>, <<2, 5>> >>
+        as == { << <<5, 3>>, <<7, 2>>, <<7, 5>> >>, << <<2, 3>>, <<4, 3>>, <<4, 4>> >>,
+                << <<5, 5>>, <<7, 5>>, <<7, 7>> >>, << <<2, 2>>, <<4, 2>>, <<4, 3>> >> }
+        perms == { <<1, 2, 3>>, <<1, 3, 2>>, <<2, 1, 3>>, <<2, 3, 1>>, <<3, 1, 2>>, <<3, 2, 1>> }
+    IN { LET t == << Poly(rv(a, fa)), Poly(rv(bb, fb)), Poly(rv(cc, fc)) >> IN <<t[pm[1]], t[pm[2]], t[pm[3]]>> :
+            a \in as, fa \in BOOLEAN, fb \in BOOLEAN, fc \in BOOLEAN, pm \in perms }
+
 VARIABLES path, done
 vars == <<path, done>>
 
@@ -92,6 +105,7 @@ PathChoice ==
                                         sd \in RandomSubset(Num, GenSeeds), se \in RandomSubset(2, 1..1000000000)}
 
       [] Mode = "special"  -> {<<c>> : c \in SpecialCtrs}
+      [] Mode = "fill3"    -> Fill3Paths
 
 P == ScalePath(SC, path)
 
@@ -150,6 +164,9 @@ InflLevel(cb, s) == LET y0 == cb[1][2] y1 == cb[2][2] y2 == cb[3][2] y3 == cb[4]
                         a == -y0 + 3 * y1 - 3 * y2 + y3 b == 3 * y0 - 6 * y1 + 3 * y2 c == -3 * y0 + 3 * y1
                     IN /\ a # 0 /\ b * b = 3 * a * c /\ (-b) * a > 0 /\ Abs(b) < 3 * Abs(a)
                        /\ 27 * a * a * (s[2] - y0) = -(b * b * b)
+\* number of junctions between consecutive drawn segments (d = PData.dr) that lie on the ray ahead of s
+VerticesAhead(dr, s) == SumOver(1..Len(dr), LAMBDA j : LET d == dr[j] n == Len(d) IN
+                            Cardinality({i \in 1..n : (i < n \/ d[n][2].p = d[1][1]) /\ Ahead(s, d[i][2].p)}))
 \* path-level data computed once per scenario: vertices, straight edges, non-degenerate drawn segments per contour
 ZeroTanEnds(c) == UNION {LET a == SegStart(c, i) g == c.segs[i] IN
                            IF g.k # "C" THEN {} ELSE (IF g.c1 = a THEN {a} ELSE {}) \cup (IF g.c2 = g.p THEN {g.p} ELSE {}) : i \in 1..Len(c.segs)}
@@ -257,12 +274,28 @@ Disjoint(p) == \A i, j \in 1..Len(p) : i < j =>
                   /\ AllLines(p[i]) /\ AllLines(p[j])
                   /\ LET v == PolyVerts(p[i]) w == PolyVerts(p[j]) IN
                      \A a \in 1..Len(v), b \in 1..Len(w) : ~SegsMeet(v[a], Nxt(v, a), w[b], Nxt(w, b))
-FillExp(p) == IF (\A j \in 1..Len(p) : Orient(p[j]) # 0) /\ Disjoint(p)
-              THEN [j \in 1..Len(p) |-> LET RECURSIVE oth(_)
-                                             oth(i) == IF i = 0 THEN 0 ELSE (IF i = j THEN 0 ELSE CtrWB(p[i], p[j].s)[1]) + oth(i - 1)
-                                             w == Orient(p[j]) + oth(Len(p))
-                                         IN [r \in 1..4 |-> IF Fills(r - 1, w) THEN 1 ELSE 0]]
-              ELSE [j \in 1..Len(p) |-> [r \in 1..4 |-> 2]]
+\* contour ci enters the interior of contour cj (polygons; coordinates even, so edge midpoints are lattice points)
+Intrudes(ci, cj) == LET v == PolyVerts(ci) w == PolyVerts(cj) o == Orient(cj) IN
+    \/ \E a \in 1..Len(v), b \in 1..Len(w) : SegsCrossProperly(v[a], Nxt(v, a), w[b], Nxt(w, b))
+    \/ \E a \in 1..Len(v) : CtrWB(cj, v[a]) = <<o, 0>> \/ CtrWB(cj, Mid(v[a], Nxt(v, a))) = <<o, 0>>
+\* FillW: per contour <<w, wt, demanded>>: w = winding number of the region just inside the contour (own orientation +
+\* windings of the other contours around its interior), demanded only if the contour is simple, no other contour enters
+\* its interior (touching is allowed) and every decided query point strictly inside it sees the same winding of the
+\* others; wt = the part of w contributed by contours on whose boundary the contour's START POINT lies.
+FillW(p) == [j \in 1..Len(p) |->
+    LET o == Orient(p[j])
+        oth == (1..Len(p)) \ {j}
+        polys == Len(p) = 1 \/ \A i \in 1..Len(p) : AllLines(p[i])
+    IN IF o = 0 \/ ~polys \/ (\E i \in oth : Intrudes(p[i], p[j])) THEN <<0, 0, 0>>
+       ELSE LET qin == {k \in 1..NQ : CtrWB(p[j], QPt(k)) = <<o, 0>> /\ \A i \in oth : CtrWB(p[i], QPt(k))[2] = 0}
+                ow(k) == SumOver(oth, LAMBDA i : CtrWB(p[i], QPt(k))[1])
+                vals == {ow(k) : k \in qin}
+            IN IF Cardinality(vals) # 1 THEN <<0, 0, 0>>
+               ELSE LET k0 == CHOOSE k \in qin : TRUE
+                        touched == {i \in oth : OnContour(PolyVerts(p[i]), p[j].s)}
+                    IN <<o + ow(k0), SumOver(touched, LAMBDA i : CtrWB(p[i], QPt(k0))[1]), 1>>]
+FillOf(fw) == [j \in 1..Len(fw) |-> [r \in 1..4 |-> IF fw[j][3] = 0 THEN 2 ELSE IF Fills(r - 1, fw[j][1]) THEN 1 ELSE 0]]
+FillExp(p) == FillOf(FillW(p))
 
 \* one row <<w, b, x, f, wd, g>> per query point (each evaluated once: TLC does not memoise function applications)
 Scenario ==
@@ -271,11 +304,15 @@ Scenario ==
         open == \E j \in 1..Len(path) : ~path[j].cl /\ EndPt(path[j]) # path[j].s
         row(s) == LET r == PathWB(pp, s)
                       f == FeatD(pp, pd, s) + (IF r[2] = 1 /\ s \in pd.zt THEN 128 ELSE 0) + (IF r[2] = 1 /\ OnCubic(pp, s) THEN 256 ELSE 0) + (IF r[2] = 1 /\ OnQuad(pp, s) THEN 512 ELSE 0)
-                      x == IF open \/ r[2] # 0 \/ (f % 16) # 0 THEN -1
+                      \* crossings: rays in general position, and rays whose only degeneracy is that they pass through
+                      \* vertices at which the boundary properly crosses them (each such vertex is one crossing)
+                      x == IF open \/ r[2] # 0 \/ (f % 16) \notin {0, 1} \/ (f \div 32) % 4 # 0 \/ f >= 1024 THEN -1
+                           ELSE IF (f % 2) = 1 THEN LET c == PathX(pd.dr, s, Len(pp)) IN IF c[2] THEN c[1] + VerticesAhead(pd.dr, s) ELSE -2
                            ELSE LET c == PathX(pd.dr, s, Len(pp)) IN IF c[2] THEN c[1] ELSE -2
                       wd == IF open /\ r[2] = 0 THEN PathWBdrawn(pp, s)[1] ELSE r[1]
                       g == FeatDir(pd, s, <<4, -3>>)
                   IN <<r[1], r[2], x, f, wd, g>>
+        fw == FillW(pp)
         others(j) == SelectSeq([i \in 1..Len(pp) |-> IF i = j THEN Ctr(Z2, <<>>, FALSE) ELSE pp[i]], LAMBDA c : Len(c.segs) > 0)
         sf == [j \in 1..Len(pp) |-> IF Len(pp) = 1 THEN 0 ELSE LET o == others(j) IN
                                        (IF PathWB(o, pp[j].s)[2] = 1 THEN 512 ELSE 0) + FeatD(o, PData(o), pp[j].s)]
@@ -284,7 +321,7 @@ Scenario ==
                  (IF ~c.cl /\ EndPt(c) # c.s THEN 1 ELSE 0)
                  + (IF \A v \in vs : v[1] < c.s[1] \/ (v[1] = c.s[1] /\ v[2] >= c.s[2]) THEN 2 ELSE 0)
                  + (IF \A v \in vs : v[1] < c.s[1] \/ (v[1] = c.s[1] /\ v[2] <= c.s[2]) THEN 4 ELSE 0)]
-    IN [path |-> path, rows |-> [i \in 1..NQ |-> row(QPt(i))], ccw |-> Orient(pp[1]), fill |-> FillExp(pp), open |-> open, sf |-> sf, cf |-> cf]
+    IN [path |-> path, rows |-> [i \in 1..NQ |-> row(QPt(i))], ccw |-> Orient(pp[1]), fill |-> FillOf(fw), fw |-> fw, open |-> open, sf |-> sf, cf |-> cf]
 
 Init == path \in PathChoice /\ done = FALSE
 Emit == ~done /\ done' = TRUE /\ UNCHANGED path /\ PathOK(path) /\ PrintT("@@" \o ToJson(Scenario))
